@@ -48,6 +48,7 @@ func enterExitProbe(ctx *core.Ctx, bin string) {
 	var mu sync.Mutex
 	var accepted []rec
 	attempts := map[string]int{}
+	twoEndpoints := map[string][]string{} // message -> endpoints of the two-endpoint hook that got it
 	refusals := 0
 	ln, err := net.Listen("tcp", "127.0.0.1:0")
 	if err != nil {
@@ -60,6 +61,14 @@ func enterExitProbe(ctx *core.Ctx, bin string) {
 		rc, ok := parse(string(b))
 		mu.Lock()
 		defer mu.Unlock()
+		if strings.HasPrefix(r.URL.Path, "/two-") {
+			// the second hook's two endpoints: both always accept
+			if ok {
+				twoEndpoints[rc.detect+":"+rc.id+"#"+rc.tok] = append(twoEndpoints[rc.detect+":"+rc.id+"#"+rc.tok], r.URL.Path)
+			}
+			w.WriteHeader(200)
+			return
+		}
 		if ok {
 			attempts[rc.tok]++
 			n, _ := strconv.Atoi(rc.tok)
@@ -92,6 +101,11 @@ func enterExitProbe(ctx *core.Ctx, bin string) {
 	fenceArgs := []string{"WITHIN", "eek", "FENCE", "DETECT", "enter,exit", "BOUNDS", "0", "0", "10", "10"}
 	if r, err := c.Do(append([]string{"SETHOOK", "eehook", "http://" + ln.Addr().String() + "/ee"}, fenceArgs...)...); err != nil || r.IsErr() {
 		ctx.Inconclusive("enter/exit probe: SETHOOK failed")
+		return
+	}
+	// a hook with two healthy endpoints: the second is a fail-over, each message goes to one of them
+	if r, err := c.Do(append([]string{"SETHOOK", "eehook2", "http://" + ln.Addr().String() + "/two-a,http://" + ln.Addr().String() + "/two-b"}, fenceArgs...)...); err != nil || r.IsErr() {
+		ctx.Inconclusive("enter/exit probe: SETHOOK with two endpoints failed")
 		return
 	}
 	if r, err := c.Do(append([]string{"SETCHAN", "eechan"}, fenceArgs...)...); err != nil || r.IsErr() {
@@ -180,6 +194,21 @@ func enterExitProbe(ctx *core.Ctx, bin string) {
 		}
 		return sb.String()
 	}
+	mu.Lock()
+	for _, wnt := range want {
+		k := wnt.detect + ":" + wnt.id + "#" + wnt.tok
+		if n := len(twoEndpoints[k]); n != 1 {
+			got := fmt.Sprint(twoEndpoints[k])
+			mu.Unlock()
+			key := "lost:two-endpoint-hook"
+			if n > 1 {
+				key = "duplicate:two-endpoint-hook"
+			}
+			ctx.Violation(key, fmt.Sprintf("hook with the endpoints /two-a,/two-b (both accept everything) on fence %q: notification %s was accepted %d times (by %s); each message is due exactly once", fenceArgs, k, n, got), map[string]any{"message": k, "accepted_by": got})
+			return
+		}
+	}
+	mu.Unlock()
 	for _, g := range []struct {
 		name string
 		got  []rec
